@@ -25,7 +25,7 @@ SPEC = dict(
              'exact read script of the spec encoding: c16_trace_accounts_for_encoding + Traced T for every covered type) on every '
              'sampled value, on the main-net block and on one generated value per PATH of the schema term (tag alternatives x Maybe/'
              'Either bits x flag fields with their dependent fields). PATH-COMPLETE (all paths of the whole term, <= 300, nested '
-             'types included): AccStatusChange, Account, AccountBlock, AccountState, AccountStatus, AccountStorage, BlkMasterInfo, '
+             'types included): MsgAddressExt, MsgAddressInt (load_address), CommonMsgInfo, AccStatusChange, Account, AccountBlock, AccountState, AccountStatus, AccountStorage, BlkMasterInfo, '
              'BlkPrevInfo, BlockCreateStats, BlockInfo, CatchainConfig, ComputeSkipReason, ConfigParams, ConsensusConfig, Counters, '
              'CreatorStats, CurrencyCollection, DepthBalanceInfo, ExtBlkRef, ExtraCurrencyCollection, FutureSplitMerge, GlobalVersion, '
              'HashUpdate, ImportFees, InMsgDescr, IntermediateAddress, KeyExtBlkRef, KeyMaxLt, McStateExtra, MsgMetadata, '
@@ -33,7 +33,7 @@ SPEC = dict(
              'SigPubKey, SplitMergeInfo, StateInit, StorageInfo, StorageUsed, StorageUsedShort, TickTock, TrActionPhase, '
              'TrBouncePhase, TrComputePhase, TrCreditPhase, TrStoragePhase, ValidatorDescr, ValidatorInfo, ValidatorSet. '
              'LOCAL path-complete (every path of the type\'s own branch structure = one parser function; nested named types sampled '
-             'and covered by their own rows): TransactionDescr, Transaction, MsgEnvelope, InMsg, OutMsg, ValueFlow, McBlockExtra, '
+             'and covered by their own rows): TransactionDescr, Transaction, ^Message, MsgEnvelope, InMsg, OutMsg, ValueFlow, McBlockExtra, '
              'BlockExtra, Block, ShardStateUnsplit, ShardState. SAMPLED only: dictionary (Hashmap/HashmapAug Patricia tree) and '
              'BinTree shapes (empty / non-empty are paths, the tree is random), prepare_transaction nesting depth (<= 3), field '
              'values (the trace fixes their width and signedness). Covered: Transaction, '
@@ -749,7 +749,9 @@ def check_value(ctx, P, ty, seed, g, tag='gen'):
     key = f'trace:{ty}:{m["kind"]}:{pth}'
     if done.get(key, 0) >= 2:
         return False                      # this mismatch already has its concrete failing values
-    ex = exhibit(ctx, P, ty, g, m)
+    tried = ctx.stats.setdefault('trace_exhibit_attempts', {})
+    tried[key] = tried.get(key, 0) + 1
+    ex = exhibit(ctx, P, ty, g, m) if tried[key] <= 4 else None
     if ex is not None:
         done[key] = done.get(key, 0) + 1
     if ex is not None:
